@@ -69,17 +69,6 @@ theorem step_commit (r : Repo) (ok : RepoOK r) {st : GState} {dB dT dC dG : List
   · simp only; rw [f3]; exact inv.hg
   · simp only; rw [f4]; exact inv.hr
 
-def blobsOf : List Op → List Nat
-  | [] => [] | .blob o :: rest => o :: blobsOf rest | _ :: rest => blobsOf rest
-def treesOf : List Op → List Nat
-  | [] => [] | .tree o :: rest => o :: treesOf rest | _ :: rest => treesOf rest
-def commitsOf : List Op → List Nat
-  | [] => [] | .commit o :: rest => o :: commitsOf rest | _ :: rest => commitsOf rest
-def tagsOf : List Op → List Nat
-  | [] => [] | .tag o :: rest => o :: tagsOf rest | _ :: rest => tagsOf rest
-def refsOf : List Op → Nat
-  | [] => 0 | .ref _ :: rest => refsOf rest + 1 | _ :: rest => refsOf rest
-
 /-- **a valid schedule never panics, and the invariant holds at the end** -/
 theorem run_valid (r : Repo) (ok : RepoOK r) : ∀ (ops : List Op) (st : GState) (dB dT dC dG : List Nat) (n : Nat),
     RunInv r st dB dT dC dG n → ValidFrom r dB dT dC dG ops →
